@@ -9,7 +9,7 @@ use std::str::FromStr;
 
 pub fn lanes() -> Vec<Lane> {
     vec![
-        Lane { name: "sweep", count: |c| gen::sweep_count(16, if c.thorough() { 7 } else { 5 }), run: sweep },
+        Lane { name: "sweep", count: |c| gen::sweep_count(16, if c.thorough() { 7 } else { 6 }), run: sweep },
         Lane { name: "gen", count: |c| if c.thorough() { 1_000_000 } else { 30_000 }, run: gen_lane },
         Lane { name: "corpus", count: |c| if c.thorough() { 60_000 } else { 3_000 }, run: corpus_lane },
         Lane { name: "reader", count: |c| if c.thorough() { 200_000 } else { 10_000 }, run: reader_lane },
